@@ -482,7 +482,9 @@ def copy_array(x, xp: Any = None) -> Array:
         if is_torch_array(x):
             return xp.clone(x)
         else:
-            return xp.as_tensor(x)
+            # as_tensor shares memory with NumPy input: clone so that in-place
+            # updates of the copy never reach the caller's array
+            return xp.clone(xp.as_tensor(x))
     else:
         try:
             return xp.copy(x)
